@@ -15,6 +15,15 @@ def ev(e, env):
     src = unparse(e)
     if src in env:
         return env[src]
+    if isinstance(e, ast.Name) and e.id in env.get('__defs__', {}):
+        # a local with a single reaching definition: substitute its defining (pure) expression
+        return ev(env['__defs__'][e.id], env)
+    if isinstance(e, ast.Call) and unparse(e.func) in ('max', 'min', 'abs', 'bool', 'int') and not e.keywords:
+        args = [ev(a, env) for a in e.args]
+        try:
+            return {'max': max, 'min': min, 'abs': abs, 'bool': bool, 'int': int}[unparse(e.func)](*args)
+        except (TypeError, ValueError) as ex:
+            raise Unknown('%s fails at run time: %s' % (src, ex))
     if isinstance(e, ast.Constant):
         return e.value
     if isinstance(e, ast.BoolOp):
